@@ -73,29 +73,36 @@ func run(ctx *core.Ctx) error {
 
 	// 1. exhaustive design models, concurrently with the generators
 	var wg sync.WaitGroup
-	var mcErr, smallErr, simErr error
-	var small, small2, sim []genRec
-	wg.Add(3)
+	var mcErr, simErr error
+	var small, sim []genRec
+	cfgs := []string{"Gen_PageTree_small.cfg", "Gen_PageTree_small2.cfg"}
+	if ctx.Thorough() {
+		cfgs = []string{"Gen_PageTree_small_t.cfg", "Gen_PageTree_small2_t.cfg", "Gen_PageTree_small3_t.cfg"}
+	}
+	parts := make([][]genRec, len(cfgs))
+	partErr := make([]error, len(cfgs))
+	wg.Add(2 + len(cfgs))
 	go func() { defer wg.Done(); mcErr = checkModels(ctx) }()
-	go func() {
-		defer wg.Done()
-		small, smallErr = generate(ctx, "Gen_PageTree_small.cfg", "", 0, 0, false)
-		if smallErr == nil {
-			small2, smallErr = generate(ctx, "Gen_PageTree_small2.cfg", "", 0, 0, false)
-		}
-	}()
+	for i, cfg := range cfgs {
+		go func(i int, cfg string) {
+			defer wg.Done()
+			parts[i], partErr[i] = generate(ctx, cfg, "", 0, 0, false)
+		}(i, cfg)
+	}
 	go func() {
 		defer wg.Done()
 		n := ctx.Pick(250, 1500)
 		sim, simErr = generate(ctx, "Gen_PageTree_sim.cfg", fmt.Sprintf("num=%d", n), 70, 1000+ctx.Seed, false)
 	}()
 	wg.Wait()
-	for _, err := range []error{mcErr, smallErr, simErr} {
+	for _, err := range append([]error{mcErr, simErr}, partErr...) {
 		if err != nil {
 			return err
 		}
 	}
-	small = append(small, small2...)
+	for _, p := range parts {
+		small = append(small, p...)
+	}
 
 	// 2. P-A: the behaviours, scaled, on the real writer
 	var jobs []job
